@@ -65,6 +65,9 @@ var registry = map[string]propDef{
 	"C18o": {"other", props.C18points},
 	"C18e": {"other", props.LoopErrors},
 	"C16e": {"other", props.LoopErrors},
+	"C04l": {"other", props.LoopErrors},
+	"C01e": {"other", props.LoopErrors},
+	"C02l": {"other", props.LoopErrors},
 	"C18w": {"other", props.C18widths},
 	"C18r": {"other", props.C18rows},
 	"C18f": {"other", props.C18fields},
@@ -73,6 +76,7 @@ var registry = map[string]propDef{
 	"C19s": {"other", props.C19setconn},
 	"C19w": {"other", props.C19wait},
 	"C19k": {"other", props.Wakers("p2p")},
+	"C19c": {"other", props.C19closed},
 	"C10y": {"other", props.Wakers("gmw")},
 	"C19o": {"other", props.C19shift},
 	"C10z": {"other", props.C19shift},
@@ -138,6 +142,7 @@ var registry = map[string]propDef{
 	"C08d": {"other", props.C08dirs},
 	"C08p": {"other", props.C08params},
 	"C08k": {"other", props.C08compare},
+	"C08j": {"other", props.SpawnsJoined},
 	"C09":  {"other", props.C09},
 	"C09g": {"other", props.C09guards},
 	"C11t": {"other", props.C11table},
@@ -188,6 +193,20 @@ var registry = map[string]propDef{
 	"C20s": {"other", props.PackShifts},
 	"C15h": {"other", props.PackShifts},
 	"C15x": {"other", props.WordExact},
+	"C15d": {"other", props.DeadErrors("ot")},
+	"C15k": {"other", props.KeptAccumulators("ot")},
+	"C06z": {"other", props.KeptAccumulators("ot")},
+	"C10n": {"other", props.KeptAccumulators("gmw", "ot")},
+	"C20k": {"other", props.KeptAccumulators("vole", "bmr", "ot")},
+	"C16d": {"other", props.DeadErrors("circuit", "compiler/ssa", "ot")},
+	"C02d": {"other", props.DeadErrors("circuit", "ot", "p2p")},
+	"C06y": {"other", props.DeadErrors("ot")},
+	"C18d": {"other", props.DeadErrors("sha2pc", "ot")},
+	"C11y": {"other", props.DeadErrors("p2p")},
+	"C19y": {"other", props.DeadErrors("p2p")},
+	"C10e": {"other", props.DeadErrors("gmw")},
+	"C14e": {"other", props.DeadErrors("circuit", "types")},
+	"C20d": {"other", props.DeadErrors("vole", "bmr", "ot")},
 	"C02a": {"other", props.CallerSlices},
 	"C01h": {"other", props.C17handle},
 	"C02h": {"other", props.C17handle},
